@@ -329,6 +329,12 @@ class Machine:
                 for k in range(n):
                     if eq[i][j] and eq[j][k] and not eq[i][k]:
                         self.V('C16', 'eq-laws', ['transitive'], f'obj{i},obj{j},obj{k}')
+        # a copy stays equal to its original for as long as neither was changed (their observable snapshots coincide):
+        # queries made in between are pure reads
+        for gi_, ci_ in getattr(self, 'copy_pairs', []):
+            if gi_ < n and ci_ < n and snaps[gi_] == snaps[ci_] and not (eq[gi_][ci_] and eq[ci_][gi_]):
+                self.V('C16', 'copy-equal', [self.objs[gi_]['kind'], 'after-reads', 'after-' + opname],
+                       f'obj{ci_} is a copy of obj{gi_}, neither was changed since (equal snapshots), yet they compare unequal')
 
     # ---- run
     def run(self):
@@ -706,6 +712,7 @@ class Machine:
             return (gi, exc, 'ok', False)
         m = self._copy_model(gi)
         ci = self.new_obj(o['kind'], c, m)
+        self.__dict__.setdefault('copy_pairs', []).append((gi, ci))
         if 'rules' in m:
             # rhs graphs of the copy are new, independently mutable objects
             real_rules = c.all_rules()
